@@ -446,6 +446,7 @@ impl HasChildren for XmlAttribute {
 
         value.remove_from_parent();
         value.set_parent_id(Some(self.id()));
+        value.context().add_item(&value);
         let v = XmlAttributeValue::try_from(value.clone())?;
         if let Some(id) = id {
             let index = self.child_index(id).unwrap();
@@ -1541,6 +1542,7 @@ impl HasChildren for XmlDocument {
         fn add_or_insert(doc: &XmlDocument, value: Rc<XmlItem>, id: Option<usize>) {
             value.remove_from_parent();
             value.set_parent_id(Some(doc.id()));
+            value.context().add_item(&value);
             if let Some(id) = id {
                 let index = doc.child_index(id).unwrap();
                 doc.children.borrow_mut().insert(index, value);
@@ -2131,6 +2133,7 @@ impl HasChildren for XmlElement {
             | XmlItem::Unexpanded(_) => {
                 value.remove_from_parent();
                 value.set_parent_id(Some(self.id()));
+                value.context().add_item(&value);
                 if let Some(id) = id {
                     let index = self.child_index(id).unwrap();
                     self.children.borrow_mut().insert(index, value.clone());
@@ -2393,6 +2396,8 @@ impl XmlElement {
     }
 
     pub fn append_attribute(&mut self, attr: Rc<XmlItem>) {
+        attr.set_parent_id(Some(self.id()));
+        attr.context().add_item(&attr);
         attr.init_order_recursive();
         self.attributes.push(attr);
     }
@@ -2433,6 +2438,7 @@ impl XmlElement {
             self.attributes
                 .retain(|v| v.as_attribute().unwrap().borrow().local_name() != name);
             v.clear_order();
+            v.set_parent_id(None);
             Some(v)
         } else {
             None
